@@ -57,9 +57,10 @@ def model_skip(c):
 def spec_override(c):
     # this property demands one thing of every case: no panic, abort or hang — except where the oracle itself
     # computed a request for more memory than the machine has (verdict `any`: the property's exclusion)
-    if c.spec.startswith("eq BCV-REJECTED"):
-        # op vmrun: the bytecode verifier (proved: accepted code never panics in the VM model) refused the real bytecode
-        return c.spec
+    if c.line.startswith("vmrun "):
+        # op vmrun: only the verdict of the bytecode verifier counts (proved: accepted code never panics in the VM model);
+        # the execution of the same source is judged on its `eval` line, where the oracle knows the memory exclusion
+        return c.spec if c.spec.startswith("eq BCV-REJECTED") else "any"
     return "any" if c.spec == "any" and c.line.startswith("eval ") else "nopanic"
 
 
@@ -190,8 +191,9 @@ def cases(ctx):
     lines = lang_lines(ctx, srcs)
     for l, t, s in zip(lines, tags, srcs):
         out.append(Case(l, (t,), extra={"src": s}))
-    # translation validation (vm_safe): Bcv on the real bytecode of every program; the VM model (explicit panic sites) runs it
-    vl = vmrun_lines(ctx, srcs)
+    # translation validation (vm_safe): Bcv, proved sound for the VM model with explicit panic sites, on the real bytecode of every
+    # program (verifier only: the VM model itself runs the same generator's programs in C02)
+    vl = vmrun_lines(ctx, srcs, static=True)
     for l, t, s in zip(vl, tags, srcs):
         out.append(Case(l, (t, "vm"), extra={"src": s}))
     nl = lang_lines(ctx, [src for _, src in NATIVE_RECURSION])
